@@ -31,7 +31,7 @@ PYOPT_KINDS = ('random',)
 CLOCALE_KINDS = ('random',)
 SECTIONS = ('lua', 'gfx', 'gff', 'map', 'sfx', 'music')
 CHOICES = ('none', 'p8', 'png', 'empty')
-OUT_STATES = ('absent', 'p8', 'p8label', 'png', 'p8blacklabel')
+OUT_STATES = ('absent', 'p8', 'p8label', 'png', 'p8blacklabel', 'p8omitted')
 TIMEOUT = {'quick': 1200, 'thorough': 10800}
 
 
@@ -116,6 +116,12 @@ class Pool:
             with open(p, 'wb') as fh:
                 fh.write(code)
             self.items['lua'].append({'path': p, 'code': code, 'returns': bool(i % 2)})
+        # a .lua source without code (an empty file, blank lines only): the code it holds is what OUT gets
+        for j, blank in enumerate((b'', b'\n', b'  \n\t\n')):
+            p = os.path.join(root, 'blank%d.lua' % j)
+            with open(p, 'wb') as fh:
+                fh.write(blank)
+            self.items['lua'].append({'path': p, 'code': blank, 'returns': False, 'blank': True})
 
 
 def empty_defaults():
@@ -197,10 +203,18 @@ def run_build(ctx, rng, pool, root, assign, out_state, out_fmt, lua_from_file, r
     if exists:
         pregions, pcode = write_out_state(rng, out_state, out)
         prev = dict(pregions, lua=pcode)
+        omit = ()
+        if out_state == 'p8omitted':
+            # OUT as current PICO-8 saves a cart that uses few sections: the unused ones are not in the file at all
+            empty = carts.game_regions(__import__('pico8.game.game', fromlist=['Game']).Game.make_empty_game())
+            omit = tuple(n for n in ('gff', 'map', 'sfx', 'music') if rng.random() < 0.7) or ('sfx',)
+            for n in omit:
+                pregions[n] = bytes(empty[n])
+            prev = dict(pregions, lua=pcode)
         if out_fmt == 'p8':
             # (a label that is entirely colour 0 is a label section like any other)
             prev_label = carts.random_bytes(rng, 8192) if out_state == 'p8label' else bytes(8192) if out_state == 'p8blacklabel' else None
-            data = rc.write_p8(pregions, pcode, version=8, label=prev_label)
+            data = rc.write_p8(pregions, pcode, version=8, label=prev_label, omit=omit)
         else:
             prev_rows = [bytearray(carts.random_bytes(rng, rc.CART_W * 4)) for _ in range(rc.CART_H)]
             data = rc.write_p8png(pregions, rc.raw_code_area(pcode), 8, base_rows=prev_rows)
@@ -236,6 +250,8 @@ def run_build(ctx, rng, pool, root, assign, out_state, out_fmt, lua_from_file, r
                 ctx.feature('section_from_p8_with_short_sections')
             if src.get('returns'):
                 ctx.feature('lua_file_ending_in_return')
+            if src.get('blank'):
+                ctx.feature('lua_file_without_code')
             used_files[os.path.basename(src['path'])] = open(src['path'], 'rb').read()
     case = {'argv': [os.path.basename(a) if os.sep in a else a for a in argv[2:]], 'assign': desc,
             'out_state': out_state if exists else 'absent', 'out_fmt': out_fmt, 'files': used_files,
@@ -246,6 +262,19 @@ def run_build(ctx, rng, pool, root, assign, out_state, out_fmt, lua_from_file, r
         ctx.feature('%s:%s' % (sec, desc[sec]))
     ctx.feature('out_state:' + (out_state if exists else 'absent'))
     ctx.feature('out_fmt:' + out_fmt)
+    if rng.random() < 0.3 and len(argv) > 3:
+        # the output cart named after the options: `p8tool build --lua main.lua --gfx art.p8 OUT`
+        groups = []
+        for a in argv[3:]:
+            if a.startswith('--'):
+                groups.append([a])
+            else:
+                groups[-1].append(a)
+        rng.shuffle(groups)        # (options in any order, so that every one of them gets to stand directly before OUT)
+        argv = argv[:2] + [a for grp in groups for a in grp] + [argv[2]]
+        case['argv'] = [os.path.basename(a) if os.sep in a else a for a in [argv[-1]] + argv[2:-1]]
+        case['out_last'] = True
+        ctx.feature('out_named_after_the_options')
     relative = rng.random() < 0.3 and not reuse_namespace
     run_argv = argv
     old_cwd = os.getcwd()
@@ -313,7 +342,9 @@ def run_build(ctx, rng, pool, root, assign, out_state, out_fmt, lua_from_file, r
         if sec == 'lua':
             same = code_equal(got['lua'], want)
         else:
-            g = got[sec]
+            # (a section that is not in the file encodes the default contents)
+            g = got[sec] if got[sec] is not None else defaults[sec]
+            got[sec] = g
             same = g == want
         if not same:
             src_kind = desc[sec]
@@ -504,6 +535,8 @@ def replay(case, ctx):
                 fh.write(data)
         argv = [ambient.vflag(), 'build'] + [os.path.join(root, a) if (a.endswith(('.p8', '.png', '.lua', '.txt'))) else a for a in case['argv']]
         out = argv[2]
+        if case.get('out_last'):
+            argv = argv[:2] + argv[3:] + [argv[2]]
         ctx.case(repr(case['argv']))
         if 'error_kind' in case:
             before = open(out, 'rb').read() if os.path.exists(out) else None
@@ -558,6 +591,8 @@ def gates(m, tier):
         for ch in CHOICES:
             if f.get('%s:%s' % (sec, ch), 0) < 3 and not (sec == 'lua' and ch in ('p8', 'png') and f.get('lua:luafile', 0) >= 3 and False):
                 missed.append('%s:%s seen %d times' % (sec, ch, f.get('%s:%s' % (sec, ch), 0)))
+    if f.get('out_named_after_the_options', 0) < 10 or f.get('lua_file_without_code', 0) < 3:
+        missed.append('OUT named after the options: %d; .lua source without code: %d' % (f.get('out_named_after_the_options', 0), f.get('lua_file_without_code', 0)))
     if f.get('same_name_in_other_format_next_to_absent_out', 0) < 3:
         missed.append('absent OUT with a cart of the same name in the other format: %d' % f.get('same_name_in_other_format_next_to_absent_out', 0))
     if f.get('lua:luafile', 0) < 3:
